@@ -67,6 +67,7 @@ type modelL2 struct {
 	Last      map[string]int64 // last powers by operator
 	Bridge    *opchildtypes.BridgeInfo
 	Blocked   map[string]bool      // address bytes that cannot receive funds
+	MayPlain  map[string]bool      // blocked addresses a zero-amount deposit was sent to (the handler creates a plain account there)
 	AcctSeq   map[string]uint64    // hook signer label -> account sequence
 	AcctNum   map[string]uint64    // hook signer label -> account number
 	hooks     map[string]*hookSpec // payload hex -> spec
@@ -78,7 +79,7 @@ type modelL2 struct {
 
 func newModelL2(prop, authority string) *modelL2 {
 	return &modelL2{Prop: prop, Authority: authority, NextL1Seq: 1, NextL2Seq: 1, Pairs: map[string]string{}, Bal: ledger{}, Supply: map[string]*big.Int{},
-		Vals: map[string]*mVal{}, Last: map[string]int64{}, Blocked: map[string]bool{}, AcctSeq: map[string]uint64{}, AcctNum: map[string]uint64{},
+		Vals: map[string]*mVal{}, Last: map[string]int64{}, Blocked: map[string]bool{}, MayPlain: map[string]bool{}, AcctSeq: map[string]uint64{}, AcctNum: map[string]uint64{},
 		hooks: map[string]*hookSpec{}, SeqUnsure: map[string]bool{}, Credited: map[string]*big.Int{}, Withdrawn: map[string]*big.Int{}}
 }
 
@@ -109,6 +110,7 @@ func (m *modelL2) clone() *modelL2 {
 		o.Bridge = &b
 	}
 	o.Blocked = m.Blocked
+	o.MayPlain = m.MayPlain
 	for k, v := range m.AcctSeq {
 		o.AcctSeq[k] = v
 	}
@@ -219,6 +221,9 @@ func (m *modelL2) step(msg sdk.Msg, bc blockCtx, faultFired bool) stepOut {
 
 // ---- deposit finalisation ----
 func (m *modelL2) stepDeposit(x *opchildtypes.MsgFinalizeTokenDeposit, bc blockCtx, faultFired bool) stepOut {
+	if a, ok := validAddr(x.To); ok && m.Blocked[string(a)] && !x.Amount.IsPositive() {
+		m.MayPlain[string(a)] = true
+	}
 	var p pred
 	if _, ok := validAddr(x.Sender); !ok || len(x.From) == 0 || !x.Amount.IsValid() || sdk.ValidateDenom(x.BaseDenom) != nil || x.Sequence == 0 || x.Height == 0 {
 		p.failBecause("l2deposit.invalid", "invalid-finalize-deposit-msg", "C06", "C07")
